@@ -24,8 +24,13 @@ inductive Expr where
   | cups (l r : Ty)
   | caps (l r : Ty)
   | transpose (a : Expr) (left : Bool)
+  /-- `recv.then(*args)` / `Diagram.then(recv, *args)` with any number of arguments. -/
+  | thenN (recv : Expr) (args : List Expr)
+  /-- `recv.tensor(*args)` with any number of arguments. -/
+  | tensorN (recv : Expr) (args : List Expr)
   deriving Repr, Inhabited
 
+mutual
 def Expr.eval : Expr → Except Err Diagram
   | .mk dom cod boxes offsets => Diagram.mk? dom cod boxes offsets
   | .box b => .ok (Diagram.ofBox b)
@@ -65,5 +70,24 @@ def Expr.eval : Expr → Except Err Diagram
   | .transpose a left => match a.eval with
     | .error e => .error e
     | .ok x => x.transpose left
+  | .thenN r args => match r.eval with
+    | .error e => .error e
+    | .ok x => match Expr.evalList args with
+      | .error e => .error e
+      | .ok xs => x.thenN xs
+  | .tensorN r args => match r.eval with
+    | .error e => .error e
+    | .ok x => match Expr.evalList args with
+      | .error e => .error e
+      | .ok xs => x.tensorN xs
+/-- The arguments of an n-ary call, evaluated from left to right before the call. -/
+def Expr.evalList : List Expr → Except Err (List Diagram)
+  | [] => .ok []
+  | a :: as => match a.eval with
+    | .error e => .error e
+    | .ok x => match Expr.evalList as with
+      | .error e => .error e
+      | .ok xs => .ok (x :: xs)
+end
 
 end DV
